@@ -14,6 +14,7 @@ from typing import (
     cast,
 )
 
+import narwhals.stable.v1 as nw
 import numpy
 import pandas
 import scipy.sparse as spsparse
@@ -70,9 +71,12 @@ def C(
         model_spec: ModelSpec,
     ) -> FactorValues:
         # wrapped numpy arrays are problematic
-        values = pandas.Series(
-            values.__wrapped__ if isinstance(values, FactorValues) else values
-        )
+        if isinstance(values, FactorValues):
+            values = values.__wrapped__
+        if nw.dependencies.is_narwhals_series(values):
+            # Retain dtype information (such as the order of categories)
+            values = values.to_pandas()
+        values = pandas.Series(values)
         mask = numpy.ones(len(values), dtype=bool)
         mask[list(drop_rows)] = False
         values = values[mask]
